@@ -520,6 +520,11 @@ func c20Registration(r *fw.Rec, rr *prng.R) {
 		{"errptrnil", func(x float64) (float64, *c20ErrPtr) { return x + 1, nil }, true, "second result is a pointer type implementing error, nil returned", "value:2"},
 		{"errptr", func(x float64) (float64, *c20ErrPtr) { return x, &c20ErrPtr{"bang"} }, true, "second result is a pointer type implementing error, non-nil returned", "error:bang"},
 		{"typednil", (func(float64) float64)(nil), false, "typed nil func", ""},
+		{"nilcallable", func(x float64) jtypes.Callable { return nil }, true, "result type jtypes.Callable, nil returned", ""},
+		{"nilcallable2", func(x float64) (jtypes.Callable, error) { return nil, nil }, true, "result type jtypes.Callable, nil returned with a nil error", ""},
+		{"niliface", func(x float64) interface{} { return nil }, true, "result type interface{}, nil returned", ""},
+		{"nilslice", func(x float64) []interface{} { return nil }, true, "result type []interface{}, nil returned", ""},
+		{"nilmap", func(x float64) map[string]interface{} { return nil }, true, "result type map, nil returned", ""},
 		{"optvar", func(a jtypes.OptionalInt, b ...int) int { return 0 }, false, "optional directly before a variadic tail", ""},
 		{"optvar2", func(s string, o jtypes.OptionalString, rest ...interface{}) int { return 0 }, false, "optional directly before a variadic tail", ""},
 		{"optvar3", func(o jtypes.OptionalValue, rest ...jtypes.Callable) int { return 0 }, false, "optional directly before a variadic tail", ""},
@@ -554,7 +559,12 @@ func c20Registration(r *fw.Rec, rr *prng.R) {
 		var callErr error
 		var out interface{}
 		pi = fw.Guard(func() {
-			e := jsonata.MustCompile("$" + name + "(1)")
+			use := "@"
+			if c.want == "" {
+				// whatever the function returns can be used in any position
+				use = rr.Pick("@", "@()", "@ ~> $string", "$map([1], @)", "$type(@)", "[@]", `{"k": @}`, "@ = @", "@.a", "$count(@)", "@ ~> $count", "$filter([1], @)", "@[0]", "@ & \"\"", "$exists(@)", "$sort([2,1], @)", "$string(@)")
+			}
+			e := jsonata.MustCompile(strings.ReplaceAll(use, "@", "$"+name+"(1)"))
 			if level == "expr" {
 				if err := e.RegisterExts(map[string]jsonata.Extension{name: {Func: c.fn}}); err != nil {
 					callErr = err
@@ -578,7 +588,7 @@ func c20Registration(r *fw.Rec, rr *prng.R) {
 	r.Outcome(fmt.Sprintf("register-ok:%v", err == nil && pi == nil))
 	switch {
 	case pi != nil:
-		r.ViolationStack("registration-panic", desc+": "+pi.Value, pi.Stack, nil)
+		r.ViolationStack("registration-or-call-panic", desc+": "+pi.Value, pi.Stack, nil)
 	case c.ok && err != nil:
 		r.Violation("valid-registration-rejected", desc+": "+err.Error(), nil)
 	case !c.ok && err == nil:
